@@ -95,7 +95,7 @@ def meadowsLoad (j : Json) : R Json := do
         pure (compsMat info (loadmatVars vars))
       else if info.filetype == sJsonExt then do
         let tasks ← asOpt (asList asTask) (fldD j "tasks" Json.null)
-        pure (compsJson info tasks)
+        pure (Src.compsJson info tasks)
       else pure (.error "ValueError")
     match comps with
     | .error e => pure (exc e)
